@@ -105,7 +105,7 @@ func (intr *treeInterpreter) Execute(node ASTNode, value interface{}) (interface
 				if err != nil {
 					return nil, err
 				}
-				if current != nil {
+				if !isNull(current) {
 					collected = append(collected, current)
 				}
 			}
@@ -173,7 +173,7 @@ func (intr *treeInterpreter) Execute(node ASTNode, value interface{}) (interface
 	case ASTLiteral:
 		return node.value, nil
 	case ASTMultiSelectHash:
-		if value == nil {
+		if isNull(value) {
 			return nil, nil
 		}
 		collected := make(map[string]interface{})
@@ -187,7 +187,7 @@ func (intr *treeInterpreter) Execute(node ASTNode, value interface{}) (interface
 		}
 		return collected, nil
 	case ASTMultiSelectList:
-		if value == nil {
+		if isNull(value) {
 			return nil, nil
 		}
 		collected := []interface{}{}
@@ -258,7 +258,7 @@ func (intr *treeInterpreter) Execute(node ASTNode, value interface{}) (interface
 			if err != nil {
 				return nil, err
 			}
-			if current != nil {
+			if !isNull(current) {
 				collected = append(collected, current)
 			}
 		}
@@ -305,7 +305,7 @@ func (intr *treeInterpreter) Execute(node ASTNode, value interface{}) (interface
 			if err != nil {
 				return nil, err
 			}
-			if current != nil {
+			if !isNull(current) {
 				collected = append(collected, current)
 			}
 		}
@@ -397,7 +397,7 @@ func (intr *treeInterpreter) filterProjectionWithReflection(node ASTNode, value 
 			if err != nil {
 				return nil, err
 			}
-			if current != nil {
+			if !isNull(current) {
 				collected = append(collected, current)
 			}
 		}
@@ -414,7 +414,7 @@ func (intr *treeInterpreter) projectWithReflection(node ASTNode, value interface
 		if err != nil {
 			return nil, err
 		}
-		if result != nil {
+		if !isNull(result) {
 			collected = append(collected, result)
 		}
 	}
